@@ -70,6 +70,14 @@ def main():
                           wt])
             res["baseline_ok"] = (rc == 0)
             res["baseline_tail"] = out.strip().splitlines()[-1:]
+        else:
+            # keep the verdict of the last baseline run against this seed
+            old = meta.get("verified", {})
+            if old.get("baseline_ok") is not None:
+                res["baseline_ok"] = old["baseline_ok"]
+                res["baseline_tail"] = old.get("baseline_tail", [])
+                res["baseline_from"] = old.get("baseline_from") or \
+                    old.get("when")
         res["checks"] = {}
         for c in checks:
             env2 = dict(os.environ, RIG_VERIF_REPO=wt)
